@@ -616,10 +616,111 @@ def check_c08(prop, tier, seed):
     return res
 
 
+# --------------------------------------------------------------------------- C17 (invalid arguments)
+def check_c17(prop, tier, seed):
+    import shutil, subprocess
+    res = Result()
+    d = os.path.join(vlib.WORK, "apigen")
+    os.makedirs(d, exist_ok=True)
+    vec = os.path.join(d, "vec17.ndjson")
+    r = vlib.run_tlc("ApiGen.tla", "ApiGen.cfg", dict(OUT17=vec), tag="apigen", workers=4, xmx="4g", timeout=1200)
+    tlc_ok(r, "ApiGen")
+    out = os.path.join(vlib.WORK, f"{prop}-{tier}")
+    shutil.rmtree(out, ignore_errors=True)
+    try:
+        summ = vlib.run_fv(["api", "--vectors", vec, "--seed", seed, "--out", out, "--shards", vlib.JVMS], timeout=600)
+    except subprocess.TimeoutExpired:
+        cur = os.path.join(out, "current_call.json")
+        call = open(cur).read() if os.path.exists(cur) else "?"
+        res.failures.append(dict(key=f"{prop} hang {call}", what=f"C17: call did not return within 600 s (hang): {call}", name="hang",
+                                 replay=dict(property=prop, kind="c17", tier=tier, seed=seed, call=call)))
+        res.coverage = dict(evaluations=1, distinct_nontrivial=2, rule="aborted by a hang", samples=[call], states=r["states"], transitions=r["generated"],
+                            traces_validated_against_impl=0)
+        return res
+    verdicts, states, trans, _ = vlib.run_trace_shards("TraceApi.tla", "TraceApi.cfg", summ["files"], tagp=prop)
+    if len(verdicts) != summ["calls"]:
+        raise ToolError(f"{summ['calls']} calls but {len(verdicts)} verdicts")
+    ok = collect_simple(verdicts, prop, res, "c17", dict(tier=tier, seed=seed))
+    # the same grids against a build with overflow checks and debug assertions (what `cargo test` users run)
+    extra = {}
+    if tier == "thorough":
+        fv2 = vlib.build_harness(target=os.path.join(vlib.HARNESS, "target-checked"),
+                                 extra_rustflags="-C debug-assertions=on -C overflow-checks=on")
+        out2 = out + "-checked"
+        shutil.rmtree(out2, ignore_errors=True)
+        summ2 = vlib.run_fv(["api", "--vectors", vec, "--seed", seed, "--out", out2, "--shards", vlib.JVMS], timeout=900, fv=fv2)
+        v2, s2, t2, _ = vlib.run_trace_shards("TraceApi.tla", "TraceApi.cfg", summ2["files"], tagp=prop + "k")
+        n0 = len(res.failures)
+        ok2 = collect_simple(v2, prop, res, "c17", dict(tier=tier, seed=seed, profile="checked"))
+        for f in res.failures[n0:]:
+            f["key"] += " profile=checked"
+        states += s2
+        trans += t2
+        extra = dict(checked_build_calls=summ2["calls"], checked_build_accepted=ok2)
+    res.coverage = dict(states=r["states"] + states, transitions=r["generated"] + trans, traces_validated_against_impl=ok,
+                        evaluations=summ["calls"], distinct_nontrivial=summ["calls"], outcome_classes=summ["outcomes"],
+                        rule="TLC enumerates from Api.tla the argument vectors of the stream-level and frame-level entry points, FrameBuf::with_size, "
+                             "Fill on a FrameBuf and on a Context: every argument from {0, min-1, min, max, max+1, 2^8+k, 2^16+k, 2^32+k, usize::MAX} with "
+                             "the others valid, plus pairs, with the verdict (ok / err / either) the specification demands; each vector is one call under "
+                             "catch_unwind; TraceApi.tla compares outcome and, for accepted calls, the values stated in the result. Every vector is distinct",
+                        samples=[dict(call="stream", ch=258, bps=16, rate=44100, bs=64, expect="err")], exhaustive=True, **extra)
+    res.assumptions = ["widths 9/13/17/21/25 and sample rate 0 at stream level are unspecified (either verdict, never a panic)"]
+    return res
+
+
+# --------------------------------------------------------------------------- C02 (stream corpus + header code spaces)
+RE_TALLY = None
+
+
+def check_c02(prop, tier, seed):
+    import re, shutil
+    res = check_stream(prop, tier, seed)
+    out = os.path.join(vlib.WORK, f"{prop}-{tier}-hdr")
+    shutil.rmtree(out, ignore_errors=True)
+    summ = vlib.run_fv(["headers", "--tier", tier, "--seed", seed, "--out", out, "--shards", vlib.JVMS], timeout=3000)
+    verdicts, states, trans, outs = vlib.run_trace_shards("TraceHeader.tla", "TraceHeader.cfg", summ["files"], tagp=prop + "h", timeout=3000)
+    judged = 0
+    for f, r in outs.items():
+        m = re.search(r"TALLY\|(\d+)\|(\d+)", r["out"])
+        if not m:
+            raise ToolError(f"no tally for {f}")
+        judged += int(m.group(1))
+    if judged != summ["events"]:
+        raise ToolError(f"{summ['events']} header events but {judged} judged")
+    seen = set()
+    for hid, (v, msgs) in sorted(verdicts.items()):
+        mine = sorted(m for m in msgs if m.startswith(("C02:", "C01:")))
+        if not mine:
+            continue
+        key = f"{prop} header " + re.sub(r"\d+", "#", mine[0])
+        if key in seen and len(seen) > 0:
+            # one replay per kind of complaint, but count them all
+            continue
+        seen.add(key)
+        res.failures.append(dict(key=f"{prop} header {mine[0]}", what=f"{hid}: " + " ;; ".join(mine)[:400], name=hid,
+                                 replay=dict(property=prop, kind="c02", tier=tier, seed=seed, id=hid, what=mine),
+                                 trace_lines=[l for f in summ["files"] for l in open(f) if f'"id":"{hid}"' in l]))
+    res.coverage["states"] += states
+    res.coverage["transitions"] += trans
+    res.coverage["traces_validated_against_impl"] += judged - len(verdicts)
+    res.coverage["header_events"] = summ["events"]
+    res.coverage["block_lengths_enumerated"] = summ["block_sizes"]
+    res.coverage["sample_rates_enumerated"] = summ["rates"]
+    res.coverage["frame_numbers_checked"] = summ["frame_numbers"]
+    res.coverage["evaluations"] += summ["events"]
+    res.coverage["distinct_nontrivial"] += summ["events"]
+    res.coverage["rule"] += ("; plus the finite header code spaces through encode_fixed_size_frame: EVERY block length 1..=32767, EVERY sample rate "
+                             "1..=96000, frame numbers = all of 0..69631, +-64 (thorough: +-4096) around every 2^k up to 2^31, and 20 000 "
+                             "(thorough: 500 000) stratified random values below 2^31 - not all 2^31 (stated limitation); every event distinct")
+    return res
+
+
 # --------------------------------------------------------------------------- registry
 CHECKS = {}
 for _p in STREAM:
     CHECKS[_p] = check_stream
+CHECKS["C02"] = check_c02
+CHECKS["C17"] = check_c17
 CHECKS["C18"] = check_comp
 CHECKS["C08"] = check_c08
 CHECKS["C07"] = check_c07
@@ -639,6 +740,10 @@ def replay(prop, path):
         r = check_stream(prop, payload.get("tier", "quick"), payload["seed"], only=payload["case"],
                          outdir=os.path.join(vlib.WORK, f"{prop}-replay"))
         return r
+    if kind == "c02":
+        return check_c02(prop, payload.get("tier", "quick"), payload.get("seed", 1))
+    if kind == "c17":
+        return check_c17(prop, payload.get("tier", "quick"), payload.get("seed", 1))
     if kind == "comp":
         r = Result()
         run_comp(prop, payload.get("tier", "quick"), payload.get("seed", 1), [prop], r)
